@@ -91,3 +91,29 @@ def config_value(name, value):
         yield
     finally:
         setattr(config, name, old)
+
+
+def relayout(rng, x, p=0.2):
+    """the same values in another memory layout, with probability p: Fortran order, every other element of a wider
+    array along one axis, or an axis stored backwards (the values and the shape are those of x)"""
+    x = np.asarray(x)
+    if x.ndim == 0 or x.size == 0 or rng.random() >= p:
+        return x
+    lay = int(rng.integers(3))
+    if lay == 0 and x.ndim >= 2:
+        return np.asfortranarray(x)
+    ax = int(rng.integers(x.ndim))
+    if lay == 1:
+        shape = list(x.shape)
+        shape[ax] *= 2
+        big = np.full(shape, 7, dtype=x.dtype)
+        idx = [slice(None)] * x.ndim
+        idx[ax] = slice(None, None, 2)
+        v = big[tuple(idx)]
+    else:
+        big = np.empty(x.shape, dtype=x.dtype)
+        idx = [slice(None)] * x.ndim
+        idx[ax] = slice(None, None, -1)
+        v = big[tuple(idx)]
+    v[...] = x
+    return v
